@@ -1200,12 +1200,13 @@ def run_test(ctx: FunctionContext) -> TestResult:
     elif counter["err"] > 0:
         passfail = color_error("[ERROR]")
         exitcode = Exitcode.EXCEPTION.value
+    elif len(stuck) > 0:
+        # an internal error on a feasible path outranks a solver timeout on another path
+        passfail = color_error("[ERROR]")
+        exitcode = Exitcode.STUCK.value
     elif counter["unknown"] > 0:
         passfail = color_warn("[TIMEOUT]")
         exitcode = Exitcode.TIMEOUT.value
-    elif len(stuck) > 0:
-        passfail = color_error("[ERROR]")
-        exitcode = Exitcode.STUCK.value
     elif normal == 0:
         passfail = color_error("[ERROR]")
         exitcode = Exitcode.REVERT_ALL.value
